@@ -4,7 +4,7 @@ import driver
 from core import rng
 
 OPS1 = ["truthy", "not", "bool", "strip", "len", "max", "min", "asbool", "isinstance_bool", "isinstance_int", "isinstance_str"]
-OPS2 = ["find", "and", "or", "eq", "ne", "lt", "le", "gt", "ge", "is", "isnot", "in", "notin", "add", "sub"]
+OPS2 = ["find", "and", "or", "eq", "ne", "lt", "le", "gt", "ge", "is", "isnot", "in", "notin", "add", "sub", "append"]
 
 
 def gen_value(r):
@@ -81,6 +81,10 @@ def py_eval(f, args):
             return from_py(a[0] + a[1], args[0])
         if f == "sub":
             return a[0] - a[1]
+        if f == "append":
+            xs = list(a[0])
+            xs.append(a[1])
+            return from_py(xs, args[0])
         if f == "asbool":
             return ExpressionUtility.asbool(a[0])
         if f == "isinstance_bool":
@@ -98,6 +102,9 @@ def outside(f, args):
     """value combinations the prelude does not claim: identity of non-constants, lists as operands of and/or results that mix
     kinds, bool/int results of arithmetic on bools (Python keeps the int), lists inside asbool"""
     kinds = ["list" if isinstance(v, dict) else type(v).__name__ for v in args]
+    if f == "append":
+        # translated for a local list of strings only
+        return not (isinstance(args[0], dict) and "strs" in args[0] and kinds[1] == "str")
     if f in ("is", "isnot"):
         return True            # `is` is translated for constants only (None, True, False); judged on those below
     if f in ("asbool",) and kinds[0] == "list":
@@ -119,6 +126,9 @@ def outside(f, args):
 
 def gen_case(seed, i):
     r = rng(seed, "pyops", i)
+    if r.random() < 0.04:
+        return {"f": "append", "args": [{"strs": [r.choice(["raise", "stop", "a", ""]) for _ in range(r.randint(0, 3))]},
+                                        r.choice(["", "a", "$[*][yes()]", "x y"])]}
     if r.random() < 0.35:
         f = r.choice(OPS1)
         return {"f": f, "args": [gen_value(r)]}
